@@ -39,6 +39,7 @@ def run_shape(prog, shape):
     out = {"entry": name, "states": 0, "queries": 0, "solver_s": 0.0, "obligations": 0, "discharged": 0,
            "inconclusive": [], "gaps": {}, "reports": [], "samples": [], "stubs": [], "kinds": {}}
     eng = H.new_engine(prog, loop_bound=64)
+    _c0 = H.cross_begin()
 
     def thunk(ctx):
         v0 = V.base_vault(eng, ctx, with_meta)
@@ -69,6 +70,8 @@ def run_shape(prog, shape):
         t = time.time()
         r = s.check()
         out["solver_s"] += time.time() - t
+        if not H.cross_check(s, r, what if "what" in dir() else ""):
+            out["inconclusive"].append("second solver disagrees: %s" % H.CROSS["disagree"][-1])
         out["queries"] += 1
         if r == z3.unsat:
             out["discharged"] += 1
@@ -116,6 +119,7 @@ def run_shape(prog, shape):
     out["solver_s"] += st.solver_s
     out["blocks"] = {prog.pretty(kk[1]): len(vv) for kk, vv in st.blocks_hit.items()}
     out["stubs"] = sorted(set(c.split("::<")[0][:80] for c in st.calls_modelled))
+    out["cross"] = H.cross_end(_c0)
     return out
 
 
@@ -137,6 +141,7 @@ def run(tier, regenerate=True):
         if isinstance(out, Exception) or out is None:
             chk.inconclusive.append("worker failed: %r" % (out,))
             continue
+        chk.add_cross(out)
         chk.states += out["states"]
         chk.transitions += out["queries"]
         chk.solver_s += out["solver_s"]
